@@ -483,10 +483,81 @@ def rule_size_and_locals(facts):
     return r
 
 
+def rule_params_size_readers(facts):
+    """The size in effect lives in the decoder state: `reset(Some(size))` replaces it there and nowhere else.  The copy kept
+    in LzmaParams is therefore stale after a reset; it may be read only to hand it to DecoderState::new."""
+    r = report.RuleResult("C14.R4", "LzmaParams.unpacked_size is read only to construct the decoder state")
+    n = 0
+
+    def is_field(pl):
+        return pl is not None and any(pr[0] == "field" and pr[2] == "unpacked_size" and pr[4] and pr[4].endswith("lzma::LzmaParams") for pr in pl.proj)
+
+    for b in facts.bodies:
+        if b.promoted is not None or not b.file.startswith("src/"):
+            continue
+        if b.self_ty is not None and (b.self_ty.name or "").endswith("lzma::LzmaParams"):
+            continue
+        tracked = set()
+        bad = None
+        reads = 0
+        changed = True
+        while changed:
+            changed = False
+            for blk in b.blocks:
+                if blk.cleanup:
+                    continue
+                for st in blk.stmts:
+                    if st.k != "assign":
+                        continue
+                    srcs = [o.place for o in st.rv.operands() if o.place is not None] + ([st.rv.place] if st.rv.place is not None else [])
+                    hit = [pl for pl in srcs if is_field(pl) or (not pl.proj and pl.local in tracked)]
+                    if not hit:
+                        continue
+                    if st.rv.k == "use" and not st.place.proj:
+                        if st.place.local not in tracked:
+                            tracked.add(st.place.local)
+                            changed = True
+                    elif st.rv.k == "ref" and not st.rv.mut and not st.place.proj and b.kind != "Closure":
+                        # a shared borrow handed on (formatting, a derived impl) is followed like a copy
+                        if st.place.local not in tracked:
+                            tracked.add(st.place.local)
+                            changed = True
+                    else:
+                        bad = bad or (blk.idx, "used in %s" % st.rv.k)
+        for blk in b.blocks:
+            if blk.cleanup:
+                continue
+            for st in blk.stmts:
+                if st.k == "assign":
+                    srcs = [o.place for o in st.rv.operands() if o.place is not None] + ([st.rv.place] if st.rv.place is not None else [])
+                    reads += len([pl for pl in srcs if is_field(pl)])
+            t = blk.term
+            if t.k == "switch" and t.discr.place is not None and (is_field(t.discr.place) or (not t.discr.place.proj and t.discr.place.local in tracked)):
+                bad = bad or (blk.idx, "decides a branch")
+            if t.k == "call":
+                nm = flow.callee(t) or ""
+                for a in t.args:
+                    if a.place is not None and (is_field(a.place) or (not a.place.proj and a.place.local in tracked)):
+                        reads += 1 if is_field(a.place) else 0
+                        if not (nm.endswith("DecoderState::new") or nm.startswith(("core::fmt::", "std::fmt::")) or "fmt::" in nm):
+                            bad = bad or (blk.idx, "passed to %s" % nm.split("::")[-1])
+        if not reads:
+            continue
+        n += 1
+        if bad:
+            r.bad("%s|params-size" % short(b.name), "the construction-time size kept in LzmaParams is %s in %s: after reset(Some(size)) that copy is "
+                  "stale, a reused decoder then differs from a fresh one" % (bad[1], short(b.name)), pat.where(b, bad[0]))
+        else:
+            r.ok("who-reads", {"fn": short(b.name)})
+    r.sites = n
+    r.need("readers of LzmaParams.unpacked_size outside LzmaParams (found %d)" % n, n >= 1)
+    return r
+
+
 def run(ctx, t0):
     facts = ctx.facts()
     from rules import C08
-    rules = [rule_fields(facts), rule_entries(facts), rule_size_and_locals(facts), C08.rule_size_writers(facts, "C14.R3b")]
+    rules = [rule_fields(facts), rule_entries(facts), rule_size_and_locals(facts), C08.rule_size_writers(facts, "C14.R3b"), rule_params_size_readers(facts)]
     expl = ("Static sibling agreement: the provenance term stored in each DecoderState field by reset_state is compared "
             "with the constructor's (field list taken from the ADT definition), on every path; the reset entry points "
             "are checked by dominance and by comparing the properties argument with the constructor's.")
